@@ -111,7 +111,7 @@ func init() {
 			if tier == "thorough" {
 				return 30 * time.Minute
 			}
-			return 150 * time.Second
+			return 240 * time.Second
 		},
 		MustReach: []string{"leaders", "elections"},
 	}
